@@ -190,10 +190,10 @@ PROPS = {
         "checkers": {"WR": "check_c05", "RD": "check_c05", "SW": "check_c05"},
         "harness": [{"bin": "stream"},
                     # the connection-level switch: real Connection::listen; the harness client decrypts with an independent CFB8
-                    {"bin": "conn", "env": {"VERIF_FAMILIES": "BASE,C01,C10"}, "case_type": "conn_case",
+                    {"bin": "conn", "env": {"VERIF_FAMILIES": "BASE,C01,C10,SEG"}, "case_type": "conn_case",
                      "imports": ["Lib.Bytes", "Codec.Desc", "Conn.Types", "Conn.Prog", "Conn.Sem1", "Run.CaseConn"],
-                     "checkers": {"BASE": "check_c05c", "C01": "check_c05c", "C10": "check_c05c"}, "shard": 40}],
-        "ignore_families": ["C10P"],
+                     "checkers": {"BASE": "check_c05c", "C01": "check_c05c", "C10": "check_c05c", "SEG": "check_c05c"}, "shard": 40}],
+        "ignore_families": ["C10P", "SEGP"],
         "shard": 10,
         "quick_scale": 1, "thorough_scale": 8, "search_factor": 4,
         "ties": ["stream binary: the real CipherStream<_, cfb8::Encryptor<Aes128>, cfb8::Decryptor<Aes128>> polled by hand over a scripted inner transport vs Crypto/CipherStream.v; ciphertext recomputed with the Gallina AES-128 (FIPS-197 / SP 800-38A vectors as Examples)", "conn binary (BASE, C01, C10): real Connection::listen; the harness client decrypts everything after its Encryption Response with an independent CFB8, so the place of the switch is observed (check_c05c: Conn/Switch.v monitor on the observation)"],
